@@ -221,8 +221,8 @@ def jobs_c01(tier, seed):
     ]
 
 
-HANDOVER = 'handover-2rev,handover-3rev,delegated-handover,local-to-delegated,rolledout-handover,handover-cpnone,handover-ifnoctrl'
-ROLLOUT = 'single-2phase,single-3phase,delegated-mixed,sliced,rolledout-delegated,paused-start'
+HANDOVER = 'handover-2rev,handover-3rev,handover-3rev-annot,delegated-handover,local-to-delegated,rolledout-handover,handover-cpnone,handover-ifnoctrl'
+ROLLOUT = 'single-2phase,single-2phase-cel,single-3phase,delegated-mixed,sliced,rolledout-delegated,paused-start'
 TEARDOWN = 'rolledout-2phase,rolledout-delegated,rolledout-handover,single-2phase,delegated-mixed,handover-2rev,sliced'
 DEPLOY = 'deploy,deploy-limit1,deploy-limit0,deploy-rolledout,deploy-limit1-ghost'
 
@@ -359,10 +359,12 @@ CHECKS = {
     'C08': dict(level='model_checking', invariants=INV['C08'], assumptions=ASSUME, mc=deploy_mc('C08'), jobs=sched_jobs([
         ('deploy-atomic', DEPLOY, 'deploy', 'atomic', 160, 3000, 160),
         ('deploy-api', DEPLOY, 'deploy', 'api', 120, 2000, 250)])),
-    'C09': dict(level='model_checking', invariants=INV['C09'], assumptions=ASSUME, mc=design_mc(MCINV['C09']), jobs=sched_jobs([
+    'C09': dict(level='model_checking', invariants=INV['C09'], assumptions=ASSUME, mc=design_mc(MCINV['C09']), jobs=lambda tier, seed: [
+        dict(name='package-pause', shards=4 if tier == 'quick' else 14,
+             driver=['package-walk', '-mode', 'atomic', '-n', '80' if tier == 'quick' else '2000', '-steps', '70', '-seed', str(seed)])] + sched_jobs([
         ('pause-atomic', ROLLOUT + ',' + HANDOVER + ',collision', 'pause', 'atomic', 120, 2000, 80),
         ('pause-api', ROLLOUT + ',' + HANDOVER + ',collision', 'pause', 'api', 120, 2000, 150),
-        ('deploy-pause', DEPLOY, 'deploy-pause', 'atomic', 80, 1500, 160)])),
+        ('deploy-pause', DEPLOY, 'deploy-pause', 'atomic', 80, 1500, 160)])(tier, seed)),
     'C10': dict(level='fault_enumeration', invariants=INV['C10'], mc=live_mc, assumptions=ASSUME + [
         'fair schedule after the last disturbance = round-robin over all PKO objects, workload controller makes Widgets Ready',
         'drift domain: content edits, deletion, cache-label removal, revision-annotation removal of managed objects (owner edits are takeovers, see C01)'],
